@@ -501,7 +501,7 @@ func runGen(args []string) {
 	fs := flag.NewFlagSet("gen", flag.ExitOnError)
 	srcPath := fs.String("src", "", "path of the Go source file (default: the unit's file below /repo)")
 	outPath := fs.String("out", "", "path of the Lean file to write (CoreDhcp/Generated/<Unit>.lean)")
-	unit := fs.String("unit", "ipcalc", "translation unit: ipcalc | dispatch6 | dispatch4 | serverid6 | netmask | alloc4 | alloc6 | handlers4 | loadplugins | fileplugin | config | prefix6 | handlers6 | setups | range4 | start | storage | ethernet | serveloop | filesetup | rangesetup | mainreg (for handlers4, -src is plugin=file.go[,plugin=file.go…]; for range4, plugin.go[,storage.go]; for storage, storage.go[,plugin.go]; for start, serve.go[,config.go[,plugin.go]]; for ethernet, -lib is dhcpRoot[,gopacketRoot]; for filesetup, -lib is the root of the fsnotify source; for mainreg, -src is main.go[,plugin.go])")
+	unit := fs.String("unit", "ipcalc", "translation unit: ipcalc | dispatch6 | dispatch4 | serverid6 | netmask | alloc4 | alloc6 | handlers4 | loadplugins | fileplugin | config | prefix6 | handlers6 | setups | range4 | start | storage | ethernet | serveloop | filesetup | rangesetup | mainreg | configload (for handlers4, -src is plugin=file.go[,plugin=file.go…]; for range4, plugin.go[,storage.go]; for storage, storage.go[,plugin.go]; for start, serve.go[,config.go[,plugin.go]]; for ethernet, -lib is dhcpRoot[,gopacketRoot]; for filesetup, -lib is the root of the fsnotify source; for mainreg, -src is main.go[,plugin.go])")
 	lib := fs.String("lib", defaultLib, "root of the insomniacslk/dhcp source (numeric constants are read from it)")
 	fs.Parse(args)
 	die := func(a ...interface{}) {
@@ -509,7 +509,7 @@ func runGen(args []string) {
 		os.Exit(2)
 	}
 	if *outPath == "" || fs.NArg() != 0 {
-		die("usage: gen [-unit ipcalc|dispatch6|dispatch4|serverid6|netmask|alloc4|alloc6|handlers4|loadplugins|fileplugin|config|prefix6|handlers6|setups|range4|start|storage|ethernet|serveloop|filesetup|rangesetup|mainreg] [-src file.go] -out Generated/<Unit>.lean")
+		die("usage: gen [-unit ipcalc|dispatch6|dispatch4|serverid6|netmask|alloc4|alloc6|handlers4|loadplugins|fileplugin|config|prefix6|handlers6|setups|range4|start|storage|ethernet|serveloop|filesetup|rangesetup|mainreg|configload] [-src file.go] -out Generated/<Unit>.lean")
 	}
 	if *unit == "alloc4" { // gen3.go
 		runGen3(*srcPath, *outPath)
@@ -577,6 +577,10 @@ func runGen(args []string) {
 	}
 	if *unit == "mainreg" { // gen19.go
 		runGen19(*srcPath, *outPath)
+		return
+	}
+	if *unit == "configload" { // gen20.go
+		runGen20(*srcPath, *outPath)
 		return
 	}
 	if *unit == "setups" { // gen11.go
